@@ -20,6 +20,13 @@ pub enum ChildEnd {
 
 /// Fork a child running `f(write_fd)`; collect its output (lines) with a timeout.
 pub fn in_child(timeout_ms: i64, f: impl FnOnce(i32)) -> (Vec<u8>, ChildEnd) {
+    in_child_idle(timeout_ms, timeout_ms, f)
+}
+
+/// As `in_child`, with a progress watchdog: the child is also killed when it writes nothing for
+/// `idle_ms` (every run writes a start and a result line, so this is a per-run limit). The
+/// child's address space is capped so that a runaway allocation ends as a reported crash.
+pub fn in_child_idle(timeout_ms: i64, idle_ms: i64, f: impl FnOnce(i32)) -> (Vec<u8>, ChildEnd) {
     let mut fds = [0i32; 2];
     unsafe {
         if libc::pipe(fds.as_mut_ptr()) != 0 {
@@ -32,7 +39,11 @@ pub fn in_child(timeout_ms: i64, f: impl FnOnce(i32)) -> (Vec<u8>, ChildEnd) {
         panic!("fork failed");
     }
     if pid == 0 {
-        unsafe { libc::close(fds[0]) };
+        unsafe {
+            libc::close(fds[0]);
+            let lim = libc::rlimit { rlim_cur: 4 << 30, rlim_max: 4 << 30 };
+            libc::setrlimit(libc::RLIMIT_AS, &lim);
+        }
         f(fds[1]);
         unsafe {
             libc::close(fds[1]);
@@ -44,9 +55,10 @@ pub fn in_child(timeout_ms: i64, f: impl FnOnce(i32)) -> (Vec<u8>, ChildEnd) {
     let mut tmp = [0u8; 65536];
     let start = std::time::Instant::now();
     let mut timed_out = false;
+    let mut last_data = std::time::Instant::now();
     loop {
         let elapsed = start.elapsed().as_millis() as i64;
-        let left = timeout_ms - elapsed;
+        let left = (timeout_ms - elapsed).min(idle_ms - last_data.elapsed().as_millis() as i64);
         if left <= 0 {
             timed_out = true;
             break;
@@ -62,6 +74,7 @@ pub fn in_child(timeout_ms: i64, f: impl FnOnce(i32)) -> (Vec<u8>, ChildEnd) {
         let n = unsafe { libc::read(fds[0], tmp.as_mut_ptr() as *mut libc::c_void, tmp.len()) };
         if n > 0 {
             buf.extend_from_slice(&tmp[..n as usize]);
+            last_data = std::time::Instant::now();
         } else {
             break; // EOF or error
         }
